@@ -10,6 +10,7 @@ import (
 	"testing"
 
 	"golang.org/x/crypto/openpgp"
+	"golang.org/x/crypto/openpgp/armor"
 	"golang.org/x/crypto/openpgp/packet"
 	"pault.ag/go/debian/deb"
 	"pgregory.net/rapid"
@@ -107,6 +108,28 @@ func checkSigCase(c SigCase, r *Recorder) error {
 					d.Close()
 					return errf("after a first CheckDebsig (error: %v) a second call on the same handle with an %s keyring succeeded (signer %s)", verr, c.Then, fingerprint(s2))
 				}
+				// ... and neither may a fresh handle on the same bytes, asked with the SAME keyring slice
+				// after its contents were replaced in place
+				if len(keyring) > 0 {
+					inplace := keyring // same backing array
+					saved := append(openpgp.EntityList{}, keyring...)
+					for i := range inplace {
+						if len(kr2) > 0 {
+							inplace[i] = kr2[0]
+						}
+					}
+					if len(kr2) == 0 {
+						inplace = inplace[:0]
+					}
+					if d3, err3 := deb.Load(bytes.NewReader(c.Raw), "signed.deb"); err3 == nil {
+						s3, verr3 := d3.CheckDebsig(inplace, c.Role)
+						d3.Close()
+						if verr3 == nil {
+							return errf("a fresh load of the same bytes verified against the keyring slice after its contents were replaced in place by an %s keyring (signer %s)", c.Then, fingerprint(s3))
+						}
+					}
+					copy(keyring[:len(saved)], saved)
+				}
 			}
 			d.Close()
 		}
@@ -189,7 +212,7 @@ func genSignedBase(t *rapid.T) SignedBase {
 
 var specC16 = Register(&Spec[SigCase]{
 	Prop: "C16", Name: "debsig",
-	Rule: "fault enumeration over generated debsig-signed packages (C14 models with stored/gzip members, role in {origin, maint, archive}, RSA signer from a per-process pool, detached binary signature over debian-binary|control|data in '_gpg<role>'): the untampered package with the signer in the keyring (accept); EVERY single-byte XOR 0x01 inside the three signed members (reject); a decoy control.*/data.* member with a different extension (a stored tar carrying 'Package: evil', or a copy) and a same-name duplicate with changed content inserted at EVERY member position, each loaded 64 times (reject); a role that is not present, an unrelated keyring, an empty keyring (reject); a second CheckDebsig on the same handle with an unrelated or empty keyring after a successful first one (the second must fail); EVERY single-byte XOR inside the signature member (must fail or still verify the unmodified content). Oracle: reject => Load or CheckDebsig fails on every repetition; always: if both succeed, the control data exposed equals the signed package's model and the signer is the signing entity. Non-trivial: every faulted case; distinct by (bytes, role, keyring).",
+	Rule: "fault enumeration over generated debsig-signed packages (C14 models with stored/gzip members, role in {origin, maint, archive}, RSA signer from a per-process pool, detached binary signature over debian-binary|control|data in '_gpg<role>'): the untampered package with the signer in the keyring (accept); EVERY single-byte XOR 0x01 inside the three signed members (reject); a decoy control.*/data.* member with a different extension (a stored tar carrying 'Package: evil', or a copy) and a same-name duplicate with changed content inserted at EVERY member position, each loaded 64 times (reject); a role that is not present, an unrelated keyring, an empty keyring (reject); a second CheckDebsig on the same handle with an unrelated or empty keyring after a successful first one (the second must fail); EVERY single-byte XOR inside the signature member (must fail or still verify the unmodified content); the signature member replaced by its ASCII-armored form, alone (either outcome), with a foreign/empty keyring and with flipped bytes in each signed member (reject). Oracle: reject => Load or CheckDebsig fails on every repetition; always: if both succeed, the control data exposed equals the signed package's model and the signer is the signing entity. Non-trivial: every faulted case; distinct by (bytes, role, keyring).",
 	Check: checkSigCase,
 })
 
@@ -260,6 +283,44 @@ func enumerateSigFaults(b SignedBase, yield func(SigCase) bool) bool {
 			}
 			if !yield(mk(mut, expect, fault, 1)) {
 				return false
+			}
+		}
+	}
+	// the same signature in ASCII armor (what `gpg -a -b` writes): whether or not that form is
+	// understood, it must never make a tampered package or a foreign keyring acceptable
+	{
+		var arm bytes.Buffer
+		if w, err := armor.Encode(&arm, "PGP SIGNATURE", nil); err == nil {
+			w.Write(members[len(members)-1].Data)
+			w.Close()
+			am := append([]ArMember{}, members...)
+			am[len(am)-1].Data = append(arm.Bytes(), '\n')
+			araw := renderAr(am)
+			aoffs := memberOffsets(am)
+			if !yield(mk(araw, "sigfault", "armored-sig", 1)) {
+				return false
+			}
+			c := mk(araw, "reject", "armored-sig+keyring:unrelated", 1)
+			c.Keyring = serializePublic(other)
+			if !yield(c) {
+				return false
+			}
+			c = mk(araw, "reject", "armored-sig+keyring:empty", 1)
+			c.Keyring = nil
+			if !yield(c) {
+				return false
+			}
+			for i := 0; i < len(am)-1; i++ {
+				for _, k := range []int{0, len(am[i].Data) / 2, len(am[i].Data) - 1} {
+					if k < 0 || k >= len(am[i].Data) {
+						continue
+					}
+					mut := append([]byte{}, araw...)
+					mut[aoffs[i]+60+k] ^= 0x01
+					if !yield(mk(mut, "reject", fmt.Sprintf("armored-sig+flip:%s@%d", am[i].Name, k), 1)) {
+						return false
+					}
+				}
 			}
 		}
 	}
